@@ -56,74 +56,119 @@ def r_listeners(ctx) -> RuleResult:
     exc = _parser_exception(ctx)
     ent = entry(ctx, "parse")
     clo = closure(ctx, "parse")
-    # constructors of the generated classes
+    # constructors of the generated classes, wherever the expression stands
+    from .common import parent_map
     built = {}
+
+    def qual_of(fi, func):
+        r = repo.resolve_dotted(fi.module, func)
+        if r and r[0] == "ext":
+            return r[1]
+        if r and r[0] == "class":
+            return r[1].fq
+        if r is None and isinstance(func, ast.Name):
+            imp = fi.module.imports.get(func.id)
+            return f"{imp[0]}.{imp[1]}" if imp and imp[1] else None
+        return None
     for fi in clo:
+        pm = None
         for n in own_walk(fi.node):
-            if isinstance(n, ast.Assign) and isinstance(n.value, ast.Call) and isinstance(n.targets[0], ast.Name):
-                r = repo.resolve_dotted(fi.module, n.value.func)
-                q = None
-                if r and r[0] == "ext":
-                    q = r[1]
-                elif r and r[0] == "class":
-                    q = r[1].fq
-                elif r is None and isinstance(n.value.func, ast.Name):
-                    imp = fi.module.imports.get(n.value.func.id)
-                    q = f"{imp[0]}.{imp[1]}" if imp and imp[1] else None
+            if isinstance(n, ast.Call):
+                q = qual_of(fi, n.func)
                 if q and q.endswith((".tucanLexer", ".tucanParser")):
-                    built[q.rsplit(".", 1)[1]] = (fi, n.targets[0].id, n)
+                    pm = pm or parent_map(fi.node)
+                    built[q.rsplit(".", 1)[1]] = (fi, n, pm.get(n))
     for cls in ("tucanLexer", "tucanParser"):
         if cls not in built:
             raise AnalysisError(f"R-LISTENERS: no `{cls}(...)` construction in the closure of graph_from_tucan")
-    for cls, (fi, var, node) in built.items():
+
+    def listener_checks(what, fi, var, anchor_node, must_return_var=False):
+        """remove / add discipline on the object called `var` inside fi"""
         fn = fi.node
         cfg = cfg_of(fn)
         rets = [n for n in own_walk(fn) if isinstance(n, ast.Return)]
+        if must_return_var and not (rets and all(isinstance(r.value, ast.Name) and r.value.id == var for r in rets)):
+            raise AnalysisError(f"R-LISTENERS: helper {fi.qualname} configures the {what} but does not hand the same object back on every path")
         removes = [n for n in own_walk(fn) if isinstance(n, ast.Call) and isinstance(n.func, ast.Attribute) and n.func.attr == "removeErrorListeners"
                    and isinstance(n.func.value, ast.Name) and n.func.value.id == var]
         adds = [n for n in own_walk(fn) if isinstance(n, ast.Call) and isinstance(n.func, ast.Attribute) and n.func.attr == "addErrorListener"
                 and isinstance(n.func.value, ast.Name) and n.func.value.id == var]
-        what = "lexer" if cls == "tucanLexer" else "parser"
-        ok_rm = bool(removes) and all(any(cfg.dominates(cfg.stmt_node_containing(r), cfg.node_of(ret)) for r in removes) for ret in rets)
+        exits = [cfg.node_of(ret) for ret in rets] or [cfg.EXIT]
+        ok_rm = bool(removes) and all(any(cfg.dominates(cfg.stmt_node_containing(r), ex) for r in removes) for ex in exits)
         res.inst(fi.fq, f"{what}: default error listeners removed on every path", "ok" if ok_rm else "fail")
         if not ok_rm:
             res.fail(Finding("R-LISTENERS", fi.module.rel, fi.qualname, f"{var}.removeErrorListeners()",
-                             f"the {what}'s default console listener is not removed on every path: recognition errors are printed and recovered from, the input is silently altered", line=node.lineno))
+                             f"the {what}'s default console listener is not removed on every path: recognition errors are printed and recovered from, the input is silently altered", line=anchor_node.lineno))
         good_adds = []
         for a in adds:
             arg = a.args[0] if a.args else None
-            lcls = None
+            lcls_list = []
             if isinstance(arg, ast.Call):
                 r = repo.resolve_dotted(fi.module, arg.func)
                 if r and r[0] == "class":
-                    lcls = r[1]
-            if lcls is None:
-                continue
-            se = repo.mro_method(lcls, "syntaxError")
-            if se is None:
-                res.inst(fi.fq, f"{what}: listener {lcls.name}", "fail", detail="no syntaxError override")
-                res.fail(Finding("R-LISTENERS", fi.module.rel, fi.qualname, norm(a), f"listener {lcls.name} does not override syntaxError: errors are ignored", line=a.lineno))
-                continue
-            ok, why = _always_raises(ctx, se, exc)
-            res.inst(se.fq, f"{what}: {lcls.name}.syntaxError {why}", "ok" if ok else "fail")
-            if not ok:
-                res.fail(Finding("R-LISTENERS", se.module.rel, se.qualname, "syntaxError", f"{what} error listener does not unconditionally raise {exc.name}: {why}", line=se.node.lineno))
-            else:
+                    lcls_list = [r[1]]
+            elif isinstance(arg, ast.Name) and arg.id in params_of(fn):
+                # the listener object is an argument of the helper: look at what its call sites pass
+                k = params_of(fn).index(arg.id)
+                for cs in ctx.cg.callers_of(fi.fq):
+                    x = cs.node.args[k] if k < len(cs.node.args) else None
+                    if isinstance(x, ast.Call):
+                        r = repo.resolve_dotted(cs.caller.module, x.func)
+                        if r and r[0] == "class":
+                            lcls_list.append(r[1])
+                            continue
+                    raise AnalysisError(f"R-LISTENERS: cannot tell which listener object {fi.qualname} receives at {cs.caller.loc(cs.node)}")
+            all_good = bool(lcls_list)
+            for lcls in lcls_list:
+                se = repo.mro_method(lcls, "syntaxError")
+                if se is None:
+                    res.inst(fi.fq, f"{what}: listener {lcls.name}", "fail", detail="no syntaxError override")
+                    res.fail(Finding("R-LISTENERS", fi.module.rel, fi.qualname, norm(a), f"listener {lcls.name} does not override syntaxError: errors are ignored", line=a.lineno))
+                    all_good = False
+                    continue
+                ok, why = _always_raises(ctx, se, exc)
+                res.inst(se.fq, f"{what}: {lcls.name}.syntaxError {why}", "ok" if ok else "fail")
+                if not ok:
+                    res.fail(Finding("R-LISTENERS", se.module.rel, se.qualname, "syntaxError", f"{what} error listener does not unconditionally raise {exc.name}: {why}", line=se.node.lineno))
+                    all_good = False
+            if all_good:
                 good_adds.append(a)
-        ok_add = bool(good_adds) and all(any(cfg.dominates(cfg.stmt_node_containing(a), cfg.node_of(ret)) for a in good_adds) for ret in rets)
+        ok_add = bool(good_adds) and all(any(cfg.dominates(cfg.stmt_node_containing(a), ex) for a in good_adds) for ex in exits)
         # the add must come after the remove (otherwise it is removed again)
         ok_order = ok_add and all(any(cfg.dominates(cfg.stmt_node_containing(r), cfg.stmt_node_containing(a)) for r in removes) for a in good_adds) if removes else ok_add
         res.inst(fi.fq, f"{what}: raising listener registered after the removal on every path", "ok" if ok_add and ok_order else "fail")
         if not ok_add:
             res.fail(Finding("R-LISTENERS", fi.module.rel, fi.qualname, f"{var}.addErrorListener(...)",
-                             f"no raising error listener is registered on the {what} on every path: a syntax error does not become {exc.name}", line=node.lineno))
+                             f"no raising error listener is registered on the {what} on every path: a syntax error does not become {exc.name}", line=anchor_node.lineno))
         elif not ok_order:
-            res.fail(Finding("R-LISTENERS", fi.module.rel, fi.qualname, f"{var}.removeErrorListeners()", f"the {what}'s raising listener is registered before the listeners are cleared", line=node.lineno))
+            res.fail(Finding("R-LISTENERS", fi.module.rel, fi.qualname, f"{var}.removeErrorListeners()", f"the {what}'s raising listener is registered before the listeners are cleared", line=anchor_node.lineno))
+    for cls, (fi, call, par_) in built.items():
+        what = "lexer" if cls == "tucanLexer" else "parser"
+        if isinstance(par_, ast.Assign) and isinstance(par_.targets[0], ast.Name):
+            listener_checks(what, fi, par_.targets[0].id, call)
+        elif isinstance(par_, ast.Call) and call in par_.args:
+            cs = ctx.cg.resolve_call(fi, par_, ctx.cg.local_types(fi), set(params_of(fi.node)))
+            if cs.kind != "tucan":
+                raise AnalysisError(f"R-LISTENERS: the {what} is constructed inside `{short(par_)}`, whose callee is not part of tucan")
+            h = cs.target
+            hp = params_of(h.node)
+            k = par_.args.index(call)
+            if k >= len(hp):
+                raise AnalysisError(f"R-LISTENERS: cannot match the {what} argument of `{short(par_)}`")
+            # the configuring call itself must be executed on every path of the constructing function
+            cfg = cfg_of(fi.node)
+            rets = [cfg.node_of(r) for r in own_walk(fi.node) if isinstance(r, ast.Return)] or [cfg.EXIT]
+            cn = cfg.stmt_node_containing(par_)
+            if not all(cfg.dominates(cn, r) or cn == r for r in rets):
+                raise AnalysisError(f"R-LISTENERS: `{short(par_)}` is not on every path of {fi.qualname}")
+            listener_checks(what, h, hp[k], call, must_return_var=True)
+        else:
+            raise AnalysisError(f"R-LISTENERS: the {what} is constructed in a position this rule does not follow: `{short(par_) if par_ is not None else short(call)}`")
         # constructed from the call's own argument: InputStream(<param>) -> lexer -> CommonTokenStream -> parser
-        fresh = not any(isinstance(d, ast.Name) and ctx.repo.resolve(fi.module, d.id) and ctx.repo.resolve(fi.module, d.id)[0] == "const" for d in ast.walk(node.value))
-        res.inst(fi.fq, f"{what} object is built inside the call ({short(node)})", "ok" if fresh else "fail")
+        fresh = not any(isinstance(d, ast.Name) and ctx.repo.resolve(fi.module, d.id) and ctx.repo.resolve(fi.module, d.id)[0] == "const" for d in ast.walk(call))
+        res.inst(fi.fq, f"{what} object is built inside the call ({short(call)})", "ok" if fresh else "fail")
         if not fresh:
-            res.fail(Finding("R-LISTENERS", fi.module.rel, fi.qualname, norm(node), f"the {what} is built from a module-level object: state is shared between calls", line=node.lineno))
+            res.fail(Finding("R-LISTENERS", fi.module.rel, fi.qualname, norm(call), f"the {what} is built from a module-level object: state is shared between calls", line=call.lineno))
     # module-level lexer / parser / listener instances (shared between calls)
     par = repo.module("tucan.parser.parser")
     for name, val in par.assigns.items():
@@ -135,12 +180,11 @@ def r_listeners(ctx) -> RuleResult:
                 res.fail(Finding("R-LISTENERS", par.rel, name, norm(val), "a lexer / parser / listener object is created once at import time and shared by all calls", line=val.lineno))
     # start rule
     G = grammars(ctx)
-    pv = built["tucanParser"][1]
     starts = []
     for fi in clo:
         lt = ctx.cg.local_types(fi)
         for n in own_walk(fi.node):
-            if isinstance(n, ast.Call) and isinstance(n.func, ast.Attribute) and isinstance(n.func.value, ast.Name) and not n.args:
+            if isinstance(n, ast.Call) and isinstance(n.func, ast.Attribute) and not n.args:
                 t = lt.type_of(n.func.value)
                 tname = t if isinstance(t, str) else (t.fq if t is not None else "")
                 if tname.endswith("tucanParser") and (n.func.attr in G.gen.rule_names or n.func.attr.rstrip("_") in G.gen.rule_names):
